@@ -416,12 +416,30 @@ func canon(o *osm.OSM) string {
 	return string(b)
 }
 
-// inKnownClass: >= 2 multipolygon/boundary relations without own tags (beyond type; empty
-// values and uninteresting keys do not count) whose single outer way member is the same way.
+// inKnownClass mirrors C17/ProofsDup.v [adopts]: the exact class of the known finding, decided
+// on the input alone.  A relation adopts a way when it is a multipolygon/boundary without own
+// tags (type, uninteresting keys and empty values aside), exactly one of its way members has
+// role "outer", that way is in the data (or its nodes are annotated on the member), and its
+// resolvable coordinates form a valid ring (>= 4 points, first = last).  The class: some way is
+// adopted by two relations (C17_duplicate_feature_iff: exactly then two features share an id).
 func inKnownClass(o *osm.OSM) bool {
+	wayByID := map[osm.WayID]*osm.Way{}
+	for _, w := range o.Ways {
+		wayByID[w.ID] = w
+	}
+	nodeByID := map[osm.NodeID]*osm.Node{}
+	for _, n := range o.Nodes {
+		nodeByID[n.ID] = n
+	}
 	seen := map[int64]int{}
 	for _, r := range o.Relations {
-		tt := r.Tags.Find("type")
+		tt := ""
+		for _, t := range r.Tags {
+			if t.Key == "type" {
+				tt = t.Value
+				break
+			}
+		}
 		if tt != "multipolygon" && tt != "boundary" {
 			continue
 		}
@@ -434,18 +452,39 @@ func inKnownClass(o *osm.OSM) bool {
 		if own {
 			continue
 		}
-		cnt, ref := 0, int64(0)
+		cnt := 0
+		var outer osm.Member
 		for _, m := range r.Members {
 			if m.Type == osm.TypeWay && m.Role == "outer" {
 				cnt++
-				ref = m.Ref
+				outer = m
 			}
 		}
-		if cnt == 1 {
-			seen[ref]++
-			if seen[ref] >= 2 {
-				return true
+		if cnt != 1 {
+			continue
+		}
+		var wns osm.WayNodes
+		if w := wayByID[osm.WayID(outer.Ref)]; w != nil {
+			wns = w.Nodes
+		} else if len(outer.Nodes) != 0 {
+			wns = outer.Nodes
+		} else {
+			continue
+		}
+		var pts [][2]float64
+		for _, wn := range wns {
+			if wn.Lon != 0 || wn.Lat != 0 {
+				pts = append(pts, [2]float64{wn.Lon, wn.Lat})
+			} else if n := nodeByID[wn.ID]; n != nil {
+				pts = append(pts, [2]float64{n.Lon, n.Lat})
 			}
+		}
+		if len(pts) < 4 || pts[0] != pts[len(pts)-1] {
+			continue
+		}
+		seen[outer.Ref]++
+		if seen[outer.Ref] >= 2 {
+			return true
 		}
 	}
 	return false
@@ -711,6 +750,22 @@ func (s *scene) encode(class string) *wire.Case {
 		"harness_problems": []string(s.problems)}
 	if inKnownClass(o) {
 		c.Known = knownClass
+	}
+	if len(s.runs) > 0 {
+		// C17_duplicate_feature_iff: the class is exact (an input in the class without duplicate
+		// ids, or duplicate ids outside the class, is reported as a harness problem)
+		dup := false
+		seenKey := map[[2]int64]bool{}
+		for _, f := range s.runs[0].Features {
+			k := [2]int64{int64(f.Type), f.Ref}
+			if seenKey[k] {
+				dup = true
+			}
+			seenKey[k] = true
+		}
+		if dup != (c.Known != "") {
+			s.problems.add("known-finding class is not exact here: in class %v, duplicate feature keys %v", c.Known != "", dup)
+		}
 	}
 	if len(s.problems) > 0 {
 		c.OracleFail = strings.Join(s.problems, "; ")
@@ -1273,9 +1328,12 @@ func (g *gen) loose(ox, oy int) {
 }
 
 func randomScene(rng *rand.Rand) (*osm.OSM, string) {
+	return randomSceneParts(rng, 1+rng.Intn(3))
+}
+
+func randomSceneParts(rng *rand.Rand, parts int) (*osm.OSM, string) {
 	g := newGen(rng)
 	class := ""
-	parts := 1 + rng.Intn(3)
 	for p := 0; p < parts; p++ {
 		ox, oy := 100+40*p, 50+rng.Intn(5)
 		switch rng.Intn(4) {
@@ -1521,6 +1579,15 @@ func main() {
 	for i := 0; i < n; i++ {
 		o, class := randomScene(rng)
 		add(o, class)
+		if a.Tier == "thorough" && i%125 == 60 {
+			// a big data set (hundreds of elements) under five option sets
+			bo, _ := randomSceneParts(rng, 14+rng.Intn(22))
+			s := runScene(bo, []int{0, 8, 15, 7, 1 + rng.Intn(14)})
+			c := s.encode("big")
+			w.Add(c)
+			w.Count(fmt.Sprintf("big:elements>=%d", (len(bo.Nodes)+len(bo.Ways)+len(bo.Relations))/100*100))
+			w.Count(fmt.Sprintf("big:features>=%d", len(s.runs[0].Features)/50*50))
+		}
 	}
 	for _, c := range canaries() {
 		w.Add(c)
